@@ -142,7 +142,9 @@ class EffectivePotential(ABC):
         guesses = initialGuess.resizeFields(numPoints, initialGuess.numFields())
         T = np.resize(T, (numPoints))
 
-        resValue = np.empty_like(T)
+        ## Explicitly float: an integer-typed temperature (e.g. T=100) must not make
+        ## this an integer array, which would truncate the potential values
+        resValue = np.empty_like(T, dtype=float)
         resLocation = np.empty_like(guesses)
 
         for i in range(0, numPoints):
